@@ -100,8 +100,13 @@ def make_harness(steps, moving, safe):
                                                       beq(v.target, safe))),
                             f"step {k}: on error coil and target go to the "
                             f"configured safe state ({safe})")
-                    E.prove(pysym.implies(lnot(newly),
-                                          beq(coil.value, tg)),
+                    E.prove(pysym.implies(
+                        land(v.error, lnot(beq(coil.value, tg))),
+                        land(beq(coil.value, safe), beq(v.target, safe))),
+                        f"step {k}: a coil that does not follow the target is "
+                        f"in the configured safe state ({safe}) with the error "
+                        "flagged")
+                    E.prove(pysym.implies(lnot(v.error), beq(coil.value, tg)),
                             f"step {k}: without error the coil follows the "
                             "target")
         finally:
